@@ -21,9 +21,10 @@ func init() {
 			"(5) scan option table (P-ORD over the five option combinations): prefix+suffix → suffix(prefix(full)), prefix → prefix(full), suffix → suffix(full), start/end → range(start,end), none → full, with the request's own fields as arguments; entries are sent only on the not-a-tombstone edge and the limit counts sent entries; " +
 			"(6) an empty value is not turned into a deletion on the request path. " +
 			"Added after blind round 4: the prefix/suffix predicates (bytes.HasPrefix/HasSuffix or a hand-written test that agrees with them on the length/equality table). " +
-			"Added after blind round 5: a handle is removed only on exits that finished the transaction (shared with C17).",
+			"Added after blind round 5: a handle is removed only on exits that finished the transaction (shared with C17). " +
+			"Added after blind round 7: the sweeper's idle criterion cross-listed from C17 (the service runs the sweep at every BeginTransaction RPC).",
 		NotDecided: "equality of responses with the embedded API for all request sequences and data sets; gRPC transport behaviour; connection-bound transaction cleanup; GetStats contents.",
-		Rules:      []func(*Ctx, *Reporter){ruleC19Delegation, ruleC19Limits, ruleC19Rejection, ruleC19Handles, ruleC19ScanOptions, ruleScanConsumers, ruleEmptyNotDeleted, ruleFilter, ruleTxOrphanRemoval},
+		Rules:      []func(*Ctx, *Reporter){ruleC19Delegation, ruleC19Limits, ruleC19Rejection, ruleC19Handles, ruleC19ScanOptions, ruleScanConsumers, ruleEmptyNotDeleted, ruleFilter, ruleTxOrphanRemoval, subRules(ruleTxStale, "cleanup-criteria")},
 	})
 }
 
